@@ -241,10 +241,11 @@ def handleBuilt (code : Nat) (msg : Bytes) (md : List (Bytes × Bytes)) (ds : Li
      ("header-trip", obs.take 3 == ["T", toString code, hex msg]),
      ("embedded-status", Spec.RichError.embeds code msg ob)] ++
     (if inDomain then
-      [("wire-conformant", Spec.RichError.carries code msg ds ob),
-       ("vec-roundtrip", sect "V" "S" obs == expectVec),
+      [("wire-conformant",
+          if isSet then Spec.RichError.carriesSet code msg ds ob else Spec.RichError.carries code msg ds ob),
        ("getters-first", sect "G" "D" obs == expectFirst)] ++
-      (if isSet then [("set-roundtrip", sect "S" "G" obs == expectSet)] else [])
+      (if isSet then [("set-roundtrip", sect "S" "G" obs == expectSet)]
+       else [("vec-roundtrip", sect "V" "S" obs == expectVec)])
      else [])
   (String.intercalate " " model, verdict clauses)
 
